@@ -181,7 +181,9 @@ PATTERN_LABELS = [n + "AA" for n in PATTERN_NUCS]
 # colliding XS IDs: a label is <nuclide label><XS ID> by plain concatenation, so XS IDs made of the letters of
 # nuclide labels held under ANOTHER XS ID of the same library ("NA" next to NA23AA, "FE" next to FE56AA, "BA"
 # next to BA38AB), XS IDs that are each other's reversal (AB/BA) and XS IDs sharing one character (AA/AB/BA/NA)
-COLLIDE_LABELS = ["U235AA", "NA23AA", "FE56AA", "U235NA", "FE56NA", "NA23FE", "U235FE", "U235BA", "FE56BA", "BA38AB", "NA23AB"]
+# the colliding nuclide is held under both XS IDs (NA23AA and NA23NA ...): a foreign nuclide only shows when the
+# composition holds a density for its name
+COLLIDE_LABELS = ["U235AA", "NA23AA", "FE56AA", "BA38AA", "U235NA", "NA23NA", "FE56NA", "FE56FE", "NA23FE", "U235FE", "BA38BA", "U235BA", "BA38AB", "NA23AB", "U235AB"]
 COLLIDE_SUFFIXES = ["AA", "NA", "FE", "BA", "AB"]
 LABEL_INDEX.update({lab: 40 + i for i, lab in enumerate(COLLIDE_LABELS) if lab not in LABEL_INDEX})
 MACRO_MEMBERS["col2"] = [
